@@ -868,7 +868,11 @@ def _do_step_inner(env, ctx, case_fp, si, step, entry):
         ctx.violation('store_read_after_fault', detail={'read': [repr(l) for l in reads]}, klass=env.klass(**kl_extra))
     elif not env.faulted:
         extra = [l for l in reads if l not in allowed]
-        if extra:
+        if extra and _unreliable(env, entry):
+            # a refused read followed by a restored file: which of the loaded Frames count as recently used after the refused
+            # access is not defined by the statement, so the model's loaded set (and with it `allowed`) is no prediction here
+            ctx.tally('read_accounting_not_judged', 'after_refused_read_and_restore')
+        elif extra:
             ctx.violation('store_read_not_needed', detail={'read': [repr(l) for l in reads], 'allowed': sorted(map(repr, allowed)),
                                                            'loaded_before': sorted(map(repr, pre.loaded))},
                           klass=env.klass(passive=op in _PASSIVE or op in _DERIVE, **kl_extra))
